@@ -33,7 +33,11 @@ class C06(Check):
     rule = ('case = layered plain-Input DAG (2-5 layers, width 1-4, every execution mode); for EVERY depth d of the '
             'program the completions of all depth-d nodes are withheld until the loop is quiescent, then every node of '
             'depth d must have started (per program the enumeration over depths is exhaustive); non-trivial = a depth '
-            'with >=2 holdable (gated / thread / process) nodes; distinct = digest of the program')
+            'with >=2 holdable (gated / thread / process) nodes; distinct = digest of the program. Second part, real '
+            'threads: the same DAGs on the real loop with a real ThreadPoolExecutor; the bodies of the widest depth '
+            '(thread-pool and coroutine members) rendezvous without a timeout - if the engine cannot have them in '
+            'flight together the process becomes quiescent (every thread asleep and unscheduled, no timer), which is '
+            'the verdict')
     floors = {'depth-with>=2-holdable': 0.6}
     quick_examples = 3000
     thorough_examples = 12000
@@ -44,7 +48,76 @@ class C06(Check):
         layers = 5 if tier == 'quick' else 6
         return G.layered_dags(max_layers=layers, max_width=4).map(lambda p: {'program': p})
 
+    # ---------------------------------------------------------------- real threads (rendezvous)
+    @staticmethod
+    def real_thread_case(prog):
+        """the program as it is run on the real loop with a real thread pool, and the group that must rendezvous: the
+        widest depth that has >=2 members run by the thread pool or as coroutines, at least one of them in the pool"""
+        prog = S.clone(prog)
+        for n in prog['nodes']:
+            n['mode'] = {'gated': 'coro', 'process': 'thread'}.get(n['mode'], n['mode'])
+        reach = S.reachable(prog)
+        dep = depths(prog)
+        idx = S.node_index(prog)
+        by_depth = {}
+        for n in sorted(reach, key=lambda x: int(x[1:])):
+            if idx[n]['mode'] in ('thread', 'coro') and n != S.input_id(prog):
+                by_depth.setdefault(dep[n], []).append(n)
+        best = None
+        for d, members in sorted(by_depth.items()):
+            nthread = sum(1 for m in members if idx[m]['mode'] == 'thread')
+            if len(members) >= 2 and nthread >= 1 and (best is None or (nthread, len(members)) > best[0]):
+                best = ((nthread, len(members)), d, members)
+        if best is None:
+            return None
+        return {'program': prog, 'real_threads': {'depth': best[1], 'group': best[2]}}
+
+    def _examine_real_threads(self, case):
+        from verifkit import realloop
+
+        prog = case['program']
+        group = case['real_threads']['group']
+        comp = C.compile_program(prog)
+        chart = comp.build_chart()
+        res = realloop.run_rendezvous(comp, chart, {'x': 0, 'nodes': {}}, group)
+        idx = S.node_index(prog)
+        viol = []
+        if res['status'] == 'serialised':
+            missing = sorted(set(group) - set(res['entered']))
+            viol.append(('siblings-not-in-flight-together',
+                         f'real thread pool, depth {case["real_threads"]["depth"]}: {sorted(res["entered"])} are inside '
+                         f'their bodies waiting for {missing}, which never started; the process is quiescent (every '
+                         f'thread asleep and never scheduled, no timer, no ready callback)'))
+        elif res['status'] == 'done' and res['outcome'][0] != 'value':
+            viol.append(('run-failed', str(res['outcome'])[:200]))
+        classes = ['real-threads'] if res['status'] != 'inconclusive' else ['real-threads-inconclusive']
+        nthread = sum(1 for m in group if idx[m]['mode'] == 'thread')
+        if nthread >= 2:
+            classes.append('real-threads:>=2-pool-members')
+        sample = {'program': S.compact(prog), 'real_thread_pool': True, 'rendezvous_group': group,
+                  'status': res['status']}
+        return Verdict(viol, res['status'] != 'inconclusive', classes, sample, runs=1)
+
+    def extra(self, tier, seed, stats):
+        from verifkit.checks.engine_checks import draw_strategy
+        from verifkit.driver import ViolationFound
+
+        n = 60 if tier == 'quick' else 250
+        done = 0
+        for case in draw_strategy(seed + 41, n, self.strategy(tier)):
+            rc = self.real_thread_case(case['program'])
+            if rc is None:
+                continue
+            verdict = self.examine(rc)
+            stats.record(self, rc, verdict)
+            done += 1
+            if verdict.violations:
+                raise ViolationFound(rc, verdict.violations)
+        stats.extra['real_thread_rendezvous_runs'] = done
+
     def examine(self, case):
+        if case.get('real_threads'):
+            return self._examine_real_threads(case)
         prog = case['program']
         reach = S.reachable(prog)
         dep = depths(prog)
